@@ -2,218 +2,694 @@
 
 package influxql
 
+// C12 — "a query shipped to the storage nodes is the query that was planned", part 1:
+// print -> re-parse of every expression text of a finite grammar, on the real scanner, both real
+// parsers (the yacc parser that plans a statement on ts-sql, the hand-written parser that the
+// store uses to read the shipped text back) and the real printer.
+//
+// Doors (who accepts a text and thereby defines the planned tree e):
+//   Yc  yacc:  SELECT * FROM m WHERE <T>      e = stmt.Condition   -> ParseExpr(e.String())
+//   Yf  yacc:  SELECT <T> FROM m               e = stmt.Fields      -> ParseStatement("SELECT "+Fields.String()+" FROM mock")
+//                                                                      (this is hybridqp.ParseFields, the store side of QuerySchema)
+//   He  hand:  ParseExpr(<T>), whole text consumed                  -> ParseExpr(e.String())
+//   Hs  hand:  ParseQuery("SELECT * FROM m WHERE <T>")              -> ParseQuery(stmt.String())
+// plus, for Yc/Yf, the statement round trip yacc(stmt.String()).
+// Oracle: canonical typed tree (ParenExpr nodes removed) must be equal; the re-parse must consume the whole text.
+
 import (
 	"fmt"
 	"math"
+	"sort"
 	"strings"
 	"testing"
 
 	kit "github.com/openGemini/openGemini/lib/verifkit"
 )
 
-// c12Canon prints an expression tree with literal types, dropping ParenExpr nodes (grouping is in the tree shape).
+// ---------------------------------------------------------------- canonical form
+
 func c12Canon(e Expr) string {
+	var b strings.Builder
+	c12CanonTo(&b, e)
+	return b.String()
+}
+
+func c12CanonTo(b *strings.Builder, e Expr) {
 	switch n := e.(type) {
 	case nil:
-		return "<nil>"
+		b.WriteString("<nil>")
 	case *ParenExpr:
-		return c12Canon(n.Expr)
+		c12CanonTo(b, n.Expr)
 	case *BinaryExpr:
-		return fmt.Sprintf("(%s %s %s rb=%v)", n.Op.String(), c12Canon(n.LHS), c12Canon(n.RHS), n.ReturnBool)
+		b.WriteString("(")
+		b.WriteString(n.Op.String())
+		b.WriteString(" ")
+		c12CanonTo(b, n.LHS)
+		b.WriteString(" ")
+		c12CanonTo(b, n.RHS)
+		if n.ReturnBool {
+			b.WriteString(" rb")
+		}
+		b.WriteString(")")
 	case *NumberLiteral:
-		return fmt.Sprintf("num:%016x", math.Float64bits(n.Val))
+		if n.Val != n.Val {
+			b.WriteString("num:NaN")
+		} else {
+			fmt.Fprintf(b, "num:%016x", math.Float64bits(n.Val))
+		}
 	case *IntegerLiteral:
-		return fmt.Sprintf("int:%d", n.Val)
+		fmt.Fprintf(b, "int:%d", n.Val)
 	case *UnsignedLiteral:
-		return fmt.Sprintf("uint:%d", n.Val)
+		fmt.Fprintf(b, "uint:%d", n.Val)
 	case *StringLiteral:
-		return fmt.Sprintf("str:%q", n.Val)
+		fmt.Fprintf(b, "str:%q", n.Val)
 	case *BooleanLiteral:
-		return fmt.Sprintf("bool:%v", n.Val)
+		fmt.Fprintf(b, "bool:%v", n.Val)
 	case *DurationLiteral:
-		return fmt.Sprintf("dur:%d", int64(n.Val))
+		fmt.Fprintf(b, "dur:%d", int64(n.Val))
 	case *TimeLiteral:
-		return fmt.Sprintf("time:%d", n.Val.UnixNano())
+		fmt.Fprintf(b, "time:%d", n.Val.UnixNano())
 	case *RegexLiteral:
-		if n.Val == nil {
-			return "re:<nil>"
+		if n == nil || n.Val == nil {
+			b.WriteString("re:<nil>")
+		} else {
+			fmt.Fprintf(b, "re:%q", n.Val.String())
 		}
-		return fmt.Sprintf("re:%q", n.Val.String())
 	case *VarRef:
-		return fmt.Sprintf("ref:%q:%d", n.Val, n.Type)
+		fmt.Fprintf(b, "ref:%q:%d", n.Val, n.Type)
 	case *Call:
-		a := make([]string, len(n.Args))
+		fmt.Fprintf(b, "call:%q[", n.Name)
 		for i := range n.Args {
-			a[i] = c12Canon(n.Args[i])
+			if i > 0 {
+				b.WriteString(",")
+			}
+			c12CanonTo(b, n.Args[i])
 		}
-		return fmt.Sprintf("call:%q(%s)", n.Name, strings.Join(a, ","))
+		b.WriteString("]")
 	case *Wildcard:
-		return fmt.Sprintf("wild:%d", n.Type)
+		fmt.Fprintf(b, "wild:%d", n.Type)
 	case *NilLiteral:
-		return "nil"
+		b.WriteString("nil")
 	case *Distinct:
-		return fmt.Sprintf("distinct:%q", n.Val)
+		fmt.Fprintf(b, "distinct:%q", n.Val)
+	case *SetLiteral:
+		vals := make([]string, 0, len(n.Vals))
+		for v := range n.Vals {
+			vals = append(vals, fmt.Sprintf("%T:%v", v, v))
+		}
+		sort.Strings(vals)
+		fmt.Fprintf(b, "set:%q", vals)
 	default:
-		return fmt.Sprintf("%T:%q", e, e.String())
+		fmt.Fprintf(b, "%T:%q", e, e.String())
 	}
 }
 
-var c12Atoms = []string{
-	"a", `"a b"`, `"sel""ect"`, `"select"`, `"a.b"`, "a::tag", "a::field", "a::float",
-	`'str'`, `'it\'s'`, `'a\\b'`, `'a\nb'`, `''`,
-	"0", "1", "9223372036854775807", "9223372036854775808", "2.0", "1.5", "1e300", "0.0000001", "100000000000000000000.0",
-	"5m", "1h30m", "10u", "true", "false",
-	`/a\/b/`, `/^a.*$/`,
-	"f()", "f(a)", "f(a, 1)", "f(2.0)", "now()",
+func c12CanonFields(fs Fields) string {
+	var b strings.Builder
+	for i, f := range fs {
+		if i > 0 {
+			b.WriteString(" ; ")
+		}
+		c12CanonTo(&b, f.Expr)
+		if f.Alias != "" {
+			fmt.Fprintf(&b, " AS %q", f.Alias)
+		}
+	}
+	return b.String()
 }
 
-var c12BinOps = []string{"+", "-", "*", "/", "%", "&", "|", "^", "=", "!=", "<>", "<", "<=", ">", ">=", "=~", "!~", "AND", "OR"}
+// ---------------------------------------------------------------- parsing under a controlled scanner state
+
+// The scanner keeps two flags across tokens (preToken, checkDOT) and Parser.reset() does not clear
+// them, so what the pooled parser of ParseExpr does with the first token depends on the previous
+// user of that parser.  The harness therefore never uses the pool: it builds a parser and sets the
+// two flags explicitly.  State 0 is a new parser; state 1 is "the previous parse ended at EOF",
+// which is what a pooled parser looks like after a complete parse; 2 and 3 add checkDOT=true.
+const c12NStates = 4
+
+func c12NewParser(text string, state int) *Parser {
+	p := &Parser{s: newBufScanner(strings.NewReader(text))}
+	if state&1 != 0 {
+		p.s.s.preToken = EOF
+	}
+	if state&2 != 0 {
+		p.s.s.checkDOT = true
+	}
+	return p
+}
+
+type c12Parsed struct {
+	e     Expr
+	err   error
+	whole bool // the parser consumed the whole text
+}
+
+func c12ParseExprState(text string, state int) (res c12Parsed) {
+	defer func() {
+		if r := recover(); r != nil {
+			res = c12Parsed{err: fmt.Errorf("PANIC: %v", r)}
+		}
+	}()
+	p := c12NewParser(text, state)
+	e, err := p.ParseExpr()
+	if err != nil {
+		return c12Parsed{err: err}
+	}
+	tok, _, _ := p.ScanIgnoreWhitespace()
+	return c12Parsed{e: e, whole: tok == EOF}
+}
+
+// c12ParseExprAll parses in every scanner state; ok is true when all states agree (same error-ness,
+// same canonical tree, same consumption).
+func c12ParseExprAll(text string) (first c12Parsed, canon string, agree bool) {
+	first = c12ParseExprState(text, 0)
+	if first.err == nil {
+		canon = c12Canon(first.e)
+	}
+	agree = true
+	for st := 1; st < c12NStates; st++ {
+		r := c12ParseExprState(text, st)
+		if (r.err == nil) != (first.err == nil) {
+			agree = false
+			continue
+		}
+		if r.err == nil && (r.whole != first.whole || c12Canon(r.e) != canon) {
+			agree = false
+		}
+	}
+	return
+}
+
+func c12Yacc(q string) (sel *SelectStatement, err error) {
+	defer func() {
+		if r := recover(); r != nil {
+			sel, err = nil, fmt.Errorf("PANIC: %v", r)
+		}
+	}()
+	y := NewYyParser(NewScanner(strings.NewReader(q)), map[string]interface{}{})
+	y.ParseTokens()
+	qu, err := y.GetQuery()
+	if err != nil {
+		return nil, err
+	}
+	if len(qu.Statements) != 1 {
+		return nil, fmt.Errorf("%d statements", len(qu.Statements))
+	}
+	s, ok := qu.Statements[0].(*SelectStatement)
+	if !ok {
+		return nil, fmt.Errorf("not a select: %T", qu.Statements[0])
+	}
+	return s, nil
+}
+
+func c12HandQuery(q string) (sel *SelectStatement, err error) {
+	defer func() {
+		if r := recover(); r != nil {
+			sel, err = nil, fmt.Errorf("PANIC: %v", r)
+		}
+	}()
+	p := c12NewParser(q, 0)
+	qu, err := p.ParseQuery()
+	if err != nil {
+		return nil, err
+	}
+	if len(qu.Statements) != 1 {
+		return nil, fmt.Errorf("%d statements", len(qu.Statements))
+	}
+	s, ok := qu.Statements[0].(*SelectStatement)
+	if !ok {
+		return nil, fmt.Errorf("not a select: %T", qu.Statements[0])
+	}
+	return s, nil
+}
+
+// c12ParseFields is hybridqp.ParseFields (engine/hybridqp/codec.go), which the store uses to read
+// QuerySchema.QueryFields back; it cannot be imported here (import cycle), the real one is
+// exercised by the harness in lib/util/lifted/influx/query.
+func c12ParseFields(s string) (fs Fields, err error) {
+	defer func() {
+		if r := recover(); r != nil {
+			fs, err = nil, fmt.Errorf("PANIC: %v", r)
+		}
+	}()
+	p := c12NewParser("SELECT "+s+" FROM mock", 1)
+	st, err := p.ParseStatement()
+	if err != nil {
+		return nil, err
+	}
+	sel, ok := st.(*SelectStatement)
+	if !ok {
+		return nil, fmt.Errorf("invalid fields: %s", s)
+	}
+	return sel.Fields, nil
+}
+
+func c12String(n interface{ String() string }) (s string, err error) {
+	defer func() {
+		if r := recover(); r != nil {
+			err = fmt.Errorf("PANIC in String(): %v", r)
+		}
+	}()
+	return n.String(), nil
+}
+
+// ---------------------------------------------------------------- the oracle
 
 type c12Case struct {
+	Door string `json:"door"` // Yc | Yf | He | Hs
 	Text string `json:"text"`
 }
 
-func c12Check(rep *kit.Report, text string) {
-	rep.Eval(1)
-	e, err := ParseExpr(text)
-	if err != nil {
-		rep.Count("rejected_by_parser", 1)
-		return
-	}
-	rep.Count("accepted", 1)
-	want := c12Canon(e)
-	printed := e.String()
-	if rep.DistinctNontrivial(kit.Hash(want)) {
-		rep.Sample(6, map[string]string{"text": text, "printed": printed})
-	}
-	e2, err := ParseExpr(printed)
-	if err != nil {
-		rep.Violation(c12Classify(e, nil, want, ""), text, fmt.Sprintf("printed form %q does not re-parse: %v", printed, err), c12Case{text})
-		return
-	}
-	got := c12Canon(e2)
-	if got != want {
-		rep.Violation(c12Classify(e, e2, want, got), text, fmt.Sprintf("printed %q\n  planned: %s\n  shipped: %s", printed, want, got), c12Case{text})
-	}
+type c12Ctx struct {
+	rep   *kit.Report
+	doors map[string]bool
 }
 
-// c12Classify names the kind of difference (used to match KNOWN_FINDINGS signatures).
-func c12Classify(e, e2 Expr, want, got string) string {
-	if e2 == nil {
-		return "print_not_reparsable"
+func (c *c12Ctx) vio(kind, door, text, detail string) {
+	c.rep.Count("violations_door_"+door, 1)
+	c.rep.Count("kind_"+kind, 1)
+	c.rep.Violation(kind, door+": "+text, detail, c12Case{Door: door, Text: text})
+}
+
+// c12ReparseExpr is the store side: the printed text is parsed with ParseExpr in every scanner state.
+// It returns "" when every state gives the planned tree, else the kind and detail of the difference.
+func c12ReparseExpr(planned Expr, want, printed string) (kind, detail string) {
+	for st := 0; st < c12NStates; st++ {
+		r := c12ParseExprState(printed, st)
+		if r.err != nil {
+			return c12ClassifyUnparsable(planned, printed), fmt.Sprintf("printed %q does not re-parse (scanner state %d): %v\n  planned: %s", printed, st, r.err, want)
+		}
+		got := c12Canon(r.e)
+		if !r.whole {
+			return c12ClassifyEarlyStop(planned), fmt.Sprintf("printed %q is only partly consumed by ParseExpr (scanner state %d)\n  planned: %s\n  shipped: %s", printed, st, want, got)
+		}
+		if got != want {
+			return c12Classify(planned, r.e), fmt.Sprintf("printed %q (scanner state %d)\n  planned: %s\n  shipped: %s", printed, st, want, got)
+		}
 	}
-	// integral float printed without decimal point -> integer literal
-	a, b := c12Leaves(e), c12Leaves(e2)
-	if len(a) == len(b) {
-		onlyIntegral := true
-		diff := 0
-		for i := range a {
-			if a[i] == b[i] {
-				continue
+	return "", ""
+}
+
+func (c *c12Ctx) check(text string) {
+	rep := c.rep
+	rep.Eval(1)
+	accepted := false
+
+	// ---- door He: hand-written expression parser
+	if c.doors["He"] {
+		first, want, agree := c12ParseExprAll(text)
+		switch {
+		case first.err != nil && agree:
+		case !agree:
+			// accepted in one scanner state, rejected or read differently in another: not "a text the
+			// parser accepts"; counted, not judged (the statement is silent about it)
+			rep.Count("He_accept_depends_on_scanner_state", 1)
+		case !first.whole:
+			rep.Count("He_text_partly_consumed_not_accepted", 1)
+		default:
+			accepted = true
+			rep.Count("He_accepted", 1)
+			if rep.DistinctNontrivial(kit.Hash("e", want)) {
+				rep.Sample(4, map[string]string{"door": "He", "text": text, "printed": first.e.String()})
 			}
-			diff++
-			var f float64
-			var bits uint64
-			var iv int64
-			if n, _ := fmt.Sscanf(a[i], "num:%x", &bits); n == 1 {
-				f = math.Float64frombits(bits)
-				if m, _ := fmt.Sscanf(b[i], "int:%d", &iv); m == 1 && float64(iv) == f && f == math.Trunc(f) {
-					continue
+			printed, err := c12String(first.e)
+			if err != nil {
+				c.vio("printer_panic", "He", text, err.Error())
+			} else if kind, detail := c12ReparseExpr(first.e, want, printed); kind != "" {
+				c.vio(kind, "He", text, detail)
+			}
+		}
+	}
+
+	// ---- door Yc: condition of a statement planned by the yacc parser
+	if c.doors["Yc"] {
+		if sel, err := c12Yacc("SELECT * FROM m WHERE " + text); err == nil && sel.Condition != nil {
+			accepted = true
+			rep.Count("Yc_accepted", 1)
+			want := c12Canon(sel.Condition)
+			if rep.DistinctNontrivial(kit.Hash("e", want)) {
+				rep.Sample(8, map[string]string{"door": "Yc", "text": text, "printed": sel.Condition.String()})
+			}
+			printed, perr := c12String(sel.Condition)
+			if perr != nil {
+				c.vio("printer_panic", "Yc", text, perr.Error())
+			} else {
+				if kind, detail := c12ReparseExpr(sel.Condition, want, printed); kind != "" {
+					c.vio(kind, "Yc", text, detail)
+				}
+				// statement round trip through the same front door
+				if ss, err := c12String(sel); err != nil {
+					c.vio("printer_panic", "Yc", text, err.Error())
+				} else if sel2, err := c12Yacc(ss); err != nil {
+					c.vio(c12StmtKind(c12ClassifyUnparsable(sel.Condition, printed)), "Yc", text, fmt.Sprintf("statement %q does not re-parse: %v", ss, err))
+				} else if got := c12Canon(sel2.Condition); got != want {
+					c.vio(c12StmtKind(c12Classify(sel.Condition, sel2.Condition)), "Yc", text, fmt.Sprintf("statement %q\n  planned: %s\n  reparsed: %s", ss, want, got))
 				}
 			}
-			onlyIntegral = false
-		}
-		if diff > 0 && onlyIntegral && c12Shape(want) == c12Shape(got) {
-			return "integral_float_reparsed_as_integer"
 		}
 	}
-	return "roundtrip_mismatch"
+
+	// ---- door Yf: field list of a statement planned by the yacc parser
+	if c.doors["Yf"] {
+		if sel, err := c12Yacc("SELECT " + text + " FROM m"); err == nil && len(sel.Fields) > 0 {
+			accepted = true
+			rep.Count("Yf_accepted", 1)
+			want := c12CanonFields(sel.Fields)
+			if rep.DistinctNontrivial(kit.Hash("f", want)) {
+				rep.Sample(10, map[string]string{"door": "Yf", "text": text, "printed": sel.Fields.String()})
+			}
+			printed, perr := c12String(sel.Fields)
+			if perr != nil {
+				c.vio("printer_panic", "Yf", text, perr.Error())
+			} else if fs, err := c12ParseFields(printed); err != nil {
+				k := "print_not_reparsable"
+				if len(sel.Fields) == 1 {
+					k = c12ClassifyUnparsable(sel.Fields[0].Expr, printed)
+				}
+				c.vio(k, "Yf", text, fmt.Sprintf("fields %q do not re-parse with ParseFields: %v\n  planned: %s", printed, err, want))
+			} else if got := c12CanonFields(fs); got != want {
+				k := "roundtrip_mismatch"
+				if len(sel.Fields) == 1 && len(fs) == 1 {
+					k = c12Classify(sel.Fields[0].Expr, fs[0].Expr)
+				}
+				c.vio(k, "Yf", text, fmt.Sprintf("fields %q\n  planned: %s\n  shipped: %s", printed, want, got))
+			}
+		}
+	}
+
+	// ---- door Hs: hand-written statement parser, statement round trip
+	if c.doors["Hs"] {
+		if sel, err := c12HandQuery("SELECT * FROM m WHERE " + text); err == nil && sel.Condition != nil {
+			accepted = true
+			rep.Count("Hs_accepted", 1)
+			want := c12Canon(sel.Condition)
+			rep.DistinctNontrivial(kit.Hash("e", want))
+			if ss, err := c12String(sel); err != nil {
+				c.vio("printer_panic", "Hs", text, err.Error())
+			} else if sel2, err := c12HandQuery(ss); err != nil {
+				c.vio(c12StmtKind(c12ClassifyUnparsable(sel.Condition, ss)), "Hs", text, fmt.Sprintf("statement %q does not re-parse: %v", ss, err))
+			} else if got := c12Canon(sel2.Condition); got != want {
+				c.vio(c12StmtKind(c12Classify(sel.Condition, sel2.Condition)), "Hs", text, fmt.Sprintf("statement %q\n  planned: %s\n  reparsed: %s", ss, want, got))
+			}
+		}
+	}
+
+	if accepted {
+		rep.Count("texts_accepted_by_some_door", 1)
+	} else {
+		rep.Count("texts_rejected_by_every_door", 1)
+	}
 }
 
-func c12Leaves(e Expr) []string {
-	var out []string
+func c12StmtKind(k string) string { return k }
+
+// ---------------------------------------------------------------- classification of a difference
+// (a kind names one defect; anything not recognised is roundtrip_mismatch / print_not_reparsable)
+
+type c12Leaf struct {
+	canon string
+	node  Expr
+}
+
+// c12Skeleton returns the tree with leaves replaced by "_" and the leaves in order.
+func c12Skeleton(e Expr) (string, []c12Leaf) {
+	var b strings.Builder
+	var leaves []c12Leaf
 	var walk func(Expr)
 	walk = func(x Expr) {
 		switch n := x.(type) {
 		case *ParenExpr:
 			walk(n.Expr)
 		case *BinaryExpr:
+			b.WriteString("(" + n.Op.String() + " ")
 			walk(n.LHS)
+			b.WriteString(" ")
 			walk(n.RHS)
+			if n.ReturnBool {
+				b.WriteString(" rb")
+			}
+			b.WriteString(")")
 		case *Call:
-			out = append(out, "call:"+n.Name)
-			for _, a := range n.Args {
+			fmt.Fprintf(&b, "call:%q[", n.Name)
+			for i, a := range n.Args {
+				if i > 0 {
+					b.WriteString(",")
+				}
 				walk(a)
 			}
+			b.WriteString("]")
 		default:
-			out = append(out, c12Canon(x))
+			b.WriteString("_")
+			leaves = append(leaves, c12Leaf{c12Canon(x), x})
 		}
 	}
 	walk(e)
-	return out
+	return b.String(), leaves
 }
 
-// c12Shape removes the leaves so that only operators/grouping remain.
-func c12Shape(c string) string {
-	var b strings.Builder
-	for _, tok := range strings.Fields(c) {
-		if strings.HasPrefix(tok, "(") || strings.HasPrefix(tok, "rb=") {
-			b.WriteString(strings.TrimRight(tok, ")"))
-			b.WriteString(strings.Repeat(")", len(tok)-len(strings.TrimRight(tok, ")"))))
-		} else {
-			b.WriteString("_")
-			b.WriteString(strings.Repeat(")", len(tok)-len(strings.TrimRight(tok, ")"))))
-		}
-		b.WriteByte(' ')
+func c12IsIntegralFloat(e Expr) (float64, bool) {
+	n, ok := e.(*NumberLiteral)
+	if !ok || math.IsInf(n.Val, 0) || math.IsNaN(n.Val) || n.Val != math.Trunc(n.Val) {
+		return 0, false
 	}
-	return b.String()
+	return n.Val, true
 }
 
-func TestVerifC12(t *testing.T) {
-	rep := kit.NewReport("C12")
-	defer rep.Save()
-	if kit.ReplayPath() != "" {
-		var c c12Case
-		if err := kit.LoadReplay(&c); err != nil {
-			t.Fatal(err)
+func c12Classify(planned, shipped Expr) string {
+	sa, la := c12Skeleton(planned)
+	sb, lb := c12Skeleton(shipped)
+	if sa == sb && len(la) == len(lb) {
+		diff, intFloat, other := 0, 0, 0
+		for i := range la {
+			if la[i].canon == lb[i].canon {
+				continue
+			}
+			diff++
+			if f, ok := c12IsIntegralFloat(la[i].node); ok {
+				switch m := lb[i].node.(type) {
+				case *IntegerLiteral:
+					if float64(m.Val) == f {
+						intFloat++
+						continue
+					}
+				case *UnsignedLiteral:
+					if float64(m.Val) == f {
+						intFloat++
+						continue
+					}
+				}
+			}
+			other++
 		}
-		c12Check(rep, c.Text)
-		return
-	}
-	idx := 0
-	emit := func(s string) {
-		if kit.Mine(idx) {
-			c12Check(rep, s)
+		if diff > 0 && other == 0 && intFloat == diff {
+			return "integral_float_reparsed_as_integer"
 		}
-		idx++
+		if diff > 0 {
+			return "literal_changed"
+		}
 	}
+	if len(la) == len(lb) {
+		same := true
+		for i := range la {
+			if la[i].canon != lb[i].canon {
+				same = false
+			}
+		}
+		if same {
+			return "grouping_changed"
+		}
+	}
+	return "roundtrip_mismatch"
+}
+
+// c12HasOp reports whether the planned tree contains a binary operator for which pred holds.
+func c12HasOp(e Expr, pred func(Token) bool) bool {
+	found := false
+	WalkFunc(e, func(n Node) {
+		if b, ok := n.(*BinaryExpr); ok && pred(b.Op) {
+			found = true
+		}
+	})
+	return found
+}
+
+func c12ClassifyEarlyStop(planned Expr) string {
+	return "reparse_stops_early"
+}
+
+func c12ClassifyUnparsable(planned Expr, printed string) string {
+	return "print_not_reparsable"
+}
+
+// ---------------------------------------------------------------- the grammar
+
+var c12Float1e300 = "1" + strings.Repeat("0", 300) + ".0"
+
+// full literal alphabet
+var c12Atoms = []string{
+	// identifiers
+	"a", "_b1", `"a b"`, `"sel\"ect"`, `"select"`, `"a.b"`, `"a\\b"`, `"a\nb"`, `"1a"`, "a.b", "time", `"a'b"`, `"héllo"`,
+	// typed references
+	"a::float", "a::integer", "a::string", "a::boolean", "a::tag", "a::field", `"a b"::tag`, "a::unsigned",
+	// strings
+	`'str'`, `'it\'s'`, `'a\\b'`, `'a\nb'`, `''`, `'say "hi"'`, `'2020-01-01T00:00:00Z'`, `'2020-01-01'`, `'/re/'`, `'1'`,
+	// integers
+	"0", "1", "007", "9223372036854775807", "9223372036854775808", "18446744073709551615", "18446744073709551616",
+	// floats
+	"2.0", "1.5", "0.0000001", "100000000000000000000.0", c12Float1e300, "1e300", ".5", "2.", "9007199254740993.0", "0.0",
+	// durations
+	"5m", "1h30m", "10u", "10µ", "1ns", "90s", "1500ms", "0s", "1w", "36h",
+	// booleans
+	"true", "false", "TRUE",
+	// regular expressions
+	`/a\/b/`, `/^a.*$/`, `/a b/`, `/\d+/`, `/a\\b/`, `/(x|y)/`,
+	// calls, arity 0..2
+	"f()", "f(a)", "f(a, 1)", "f(2.0)", "now()", "F(A)", "f(/re/)", "f(*)", "f('s', 5m)", "f(g(a), -1)", "f(a + 1)", "f((a))",
+	// others the parsers know
+	"*", "*::tag", "inf", "distinct a", "distinct(a)",
+}
+
+var c12BinOps = []string{"+", "-", "*", "/", "%", "&", "|", "^", "=", "!=", "<>", "<", "<=", ">", ">=", "=~", "!~", "AND", "OR"}
+
+// reduced alphabets for the deeper levels
+var c12Atoms3 = []string{"a", `"a b"`, `'it\'s'`, "1", "2.0", "1.5", "5m", `/a\/b/`, "f(a, 1)", "true", "-a", "-2.0", "a::tag"}
+var c12Atoms4Quick = []string{"a", "1", "2.0", "'x'"}
+var c12Ops4Quick = []string{"OR", "AND", "=", "!=", "<", "+", "-", "*", "/", "%", "&"}
+var c12Atoms4Thorough = []string{"a", "1", "2.0", "'x'", "-a", "5m"}
+
+// parenthesisations of an operand sequence ("parentheses at every position")
+func c12Paren3(a, o1, b, o2, c string, emit func(string)) {
+	emit(a + " " + o1 + " " + b + " " + o2 + " " + c)
+	emit("(" + a + " " + o1 + " " + b + ") " + o2 + " " + c)
+	emit(a + " " + o1 + " (" + b + " " + o2 + " " + c + ")")
+}
+
+func c12Paren4(a, o1, b, o2, c, o3, d string, emit func(string)) {
+	ab := a + " " + o1 + " " + b
+	bc := b + " " + o2 + " " + c
+	cd := c + " " + o3 + " " + d
+	emit(ab + " " + o2 + " " + cd)                                // flat
+	emit("(" + ab + ") " + o2 + " " + cd)                         // (ab) c d
+	emit(a + " " + o1 + " (" + bc + ") " + o3 + " " + d)          // a (bc) d
+	emit(ab + " " + o2 + " (" + cd + ")")                         // a b (cd)
+	emit("(" + ab + ") " + o2 + " (" + cd + ")")                  // (ab)(cd)
+	emit("(" + ab + " " + o2 + " " + c + ") " + o3 + " " + d)     // (abc) d
+	emit(a + " " + o1 + " (" + bc + " " + o3 + " " + d + ")")     // a (bcd)
+	emit("((" + ab + ") " + o2 + " " + c + ") " + o3 + " " + d)   // ((ab)c)d
+	emit("(" + a + " " + o1 + " (" + bc + ")) " + o3 + " " + d)   // (a(bc))d
+	emit(a + " " + o1 + " ((" + bc + ") " + o3 + " " + d + ")")   // a((bc)d)
+	emit(a + " " + o1 + " (" + b + " " + o2 + " (" + cd + "))")   // a(b(cd))
+}
+
+func c12Enumerate(rep *kit.Report, thorough bool, check func(string)) {
+	block := 0
+	mine := func() bool { block++; return kit.Mine(block - 1) }
+
+	// level 0/1: every atom, with unary operators and parentheses
 	for _, a := range c12Atoms {
-		emit(a)
-		emit("(" + a + ")")
-		emit("-" + a)
+		if !mine() {
+			continue
+		}
+		for _, s := range []string{a, "(" + a + ")", "((" + a + "))", "-" + a, "- " + a, "+" + a, "-(" + a + ")", "(-" + a + ")", "--" + a, "- -" + a, "NOT " + a} {
+			check(s)
+		}
 	}
+	// level 1: atom op atom over the full alphabet, with parentheses and unary minus at each position
 	for _, a := range c12Atoms {
 		for _, op := range c12BinOps {
+			if !mine() {
+				continue
+			}
+			if rep.Expired() {
+				return
+			}
 			for _, b := range c12Atoms {
-				emit(a + " " + op + " " + b)
+				check(a + " " + op + " " + b)
+				check(a + op + b) // no white space
+				check("(" + a + " " + op + " " + b + ")")
+				check("(" + a + ") " + op + " (" + b + ")")
+				check("-" + a + " " + op + " " + b)
+				check(a + " " + op + " -" + b)
+				check("-(" + a + " " + op + " " + b + ")")
 			}
 		}
 	}
-	small := []string{"a", `"a b"`, `'it\'s'`, "1", "2.0", "1.5", "5m", `/a\/b/`, "f(a, 1)", "true"}
-	for _, a := range small {
+	// IN / NOT IN / LIKE and the text-search operators of the yacc grammar
+	for _, a := range []string{"a", `"a b"`, "a::tag"} {
+		if !mine() {
+			continue
+		}
+		for _, s := range []string{"IN (1)", "IN ('x')", "IN (2.0)", "IN ('it\\'s')", "NOT IN (1)", "IN (1, 2)", "LIKE 'x%'", "LIKE 'it\\'s'"} {
+			check(a + " " + s)
+			check("(" + a + " " + s + ") AND b = 1")
+			check("b = 1 OR " + a + " " + s)
+		}
+	}
+	for _, s := range []string{"match(a, 'x y')", "matchphrase(a, 'x y')", "ipinrange(a, '1.2.3.0/24')", "match(\"a b\", 'it\\'s')", "match(a, 'x') AND b = 2.0"} {
+		if mine() {
+			check(s)
+		}
+	}
+	// level 2 (three operands), reduced alphabet, all operators, all parenthesisations
+	for _, a := range c12Atoms3 {
 		for _, o1 := range c12BinOps {
-			for _, b := range small {
+			if !mine() {
+				continue
+			}
+			if rep.Expired() {
+				return
+			}
+			for _, b := range c12Atoms3 {
 				for _, o2 := range c12BinOps {
-					for _, c := range small {
-						if rep.Expired() {
-							return
-						}
-						emit(a + " " + o1 + " " + b + " " + o2 + " " + c)
-						emit("(" + a + " " + o1 + " " + b + ") " + o2 + " " + c)
-						emit(a + " " + o1 + " (" + b + " " + o2 + " " + c + ")")
+					for _, c := range c12Atoms3 {
+						c12Paren3(a, o1, b, o2, c, check)
 					}
 				}
 			}
 		}
 	}
+	// four operands (depth 2 balanced and depth 3 chains), all 11 parenthesisations
+	atoms4, ops4 := c12Atoms4Quick, c12Ops4Quick
+	if thorough {
+		atoms4, ops4 = c12Atoms4Thorough, c12BinOps
+	}
+	for _, a := range atoms4 {
+		for _, o1 := range ops4 {
+			for _, b := range atoms4 {
+				if !mine() {
+					continue
+				}
+				if rep.Expired() {
+					return
+				}
+				for _, o2 := range ops4 {
+					for _, c := range atoms4 {
+						for _, o3 := range ops4 {
+							for _, d := range atoms4 {
+								c12Paren4(a, o1, b, o2, c, o3, d, check)
+							}
+						}
+					}
+				}
+			}
+		}
+	}
+}
+
+func TestVerifC12(t *testing.T) {
+	rep := kit.NewReport("C12")
+	defer rep.Save()
+	ctx := &c12Ctx{rep: rep, doors: map[string]bool{"He": true, "Yc": true, "Yf": true, "Hs": true}}
+	if kit.ReplayPath() != "" {
+		var c c12Case
+		if err := kit.LoadReplay(&c); err != nil {
+			t.Fatal(err)
+		}
+		if c.Door != "" {
+			ctx.doors = map[string]bool{c.Door: true}
+		}
+		ctx.check(c.Text)
+		return
+	}
+	c12Enumerate(rep, kit.Thorough(), ctx.check)
 }
